@@ -12,6 +12,7 @@ package main
 import (
 	"bufio"
 	"encoding/hex"
+	"errors"
 	"fmt"
 	"math"
 	"strings"
@@ -155,6 +156,19 @@ func implHist(p *vproto.Parser) string {
 		b.WriteString("ok x" + hex.EncodeToString(buf) + " | " + res)
 	}
 	return b.String()
+}
+
+// errText: the text of the two geojson error types (geojson.go's Error methods), anything else by kind
+func errText(err error) string {
+	if err == nil {
+		return "noerr"
+	}
+	var ug *geojson.UnsupportedGeometryError
+	var ig *geojson.InvalidGeometryError
+	if errors.As(err, &ug) || errors.As(err, &ig) {
+		return "geojson " + hexs(err.Error())
+	}
+	return "other " + errKind(err)
 }
 
 // ---- generator families
@@ -422,6 +436,41 @@ func genPhase4(out *bufio.Writer, r *vproto.Rng, tier string, emit func(geom.Geo
 			fmt.Fprintf(out, " %s", vproto.GeomToks(g))
 		}
 		fmt.Fprintln(out)
+	}
+	// the error VALUES (geojson.go): emsg = text of Encode's error, dmsg = text of FromGeoJSON's error
+	ne := 60
+	if tier == "thorough" {
+		ne = 600
+	}
+	fmt.Fprintln(out, "emsg NIL")
+	for i := 0; i < ne; i++ {
+		var g geom.Geom
+		switch i % 3 {
+		case 0:
+			g = cfg{}.geom(r, 6+r.Intn(2))
+		case 1:
+			g = cfg{nonFinite: true}.geom(r, r.Intn(6))
+		default:
+			g = cfg{laterEmpty: true, firstEmpty: true}.geom(r, r.Intn(6))
+		}
+		fmt.Fprintf(out, "emsg %s\n", vproto.GeomToks(g))
+	}
+	names := []string{"Feature", "FeatureCollection", "GeometryCollection", "point", "", "Point ", " Point", "multipoint", "POLYGON", "Polygon\x00", "Ünknown type", "Line String"}
+	for i := 0; i < 3*ne; i++ {
+		base := cfg{laterEmpty: true, firstEmpty: r.Intn(4) == 0}.geom(r, r.Intn(6))
+		ty, c, d := coordsNode(base)
+		if r.Intn(2) == 0 {
+			c = mutate(r, c, d)
+		}
+		switch r.Intn(4) {
+		case 0:
+			ty = names[r.Intn(len(names))]
+		case 1:
+			ty = []string{"Point", "MultiPoint", "LineString", "MultiLineString", "Polygon", "MultiPolygon"}[r.Intn(6)]
+		}
+		var tb strings.Builder
+		c.toks(&tb)
+		fmt.Fprintf(out, "dmsg %s%s\n", hexs(ty), tb.String())
 	}
 	// member counts around powers of two beyond the `wide` family (2^13 … 2^17): runs of positions and outer member
 	// lists, in the first member and in a later one.  rt lines only (the text of such a geometry is megabytes).
